@@ -190,6 +190,11 @@ def method(ex, st, recv, name, args, kw, node=None):
     if type(recv).__name__ == "UFMap" and name == "values":
         yield st, recv.values; return
     if isinstance(recv, dict) and name == "keys": yield st, list(recv.keys()); return
+    if isinstance(recv, dict) and name == "values": yield st, list(recv.values()); return
+    if isinstance(recv, dict) and name == "items": yield st, [tuple(kv) for kv in recv.items()]; return
+    if isinstance(recv, dict) and name == "get" and not isinstance(args[0], Sym):
+        try: yield st, recv.get(args[0], args[1] if len(args) > 1 else None); return
+        except TypeError: pass
     if isinstance(recv, Ref) and recv.cls == "Stream" :
         pass
     if isinstance(recv, UFL) and name == "append":
